@@ -878,3 +878,42 @@ def fresh_rule(repo, res, tier, rule="SK-FRESH"):
     for k, (ok, why, line) in sorted(agg.items()):
         res.check(ok, rule, k, why, f"bash skeleton line {line}")
     res.floor(rule, len(agg), 2)
+
+
+# ------------------------------------------------------------------ SK-SUBACC (C01): a complete earlier word must END in an accepting state
+def subacc_rule(repo, res, tier, rule="SK-SUBACC"):
+    """`nothing when the preceding words cannot be matched`: the within-word matcher in matches mode must accept a word only if the
+    within-word automaton is in an ACCEPTING state when the word is used up.  Structurally: the `matched=1` taken when char_index
+    reaches the end of the word is conditioned on a test of the reached state against some table of accepting states that the
+    wrapper defines (any name); with no such table the prefix `--foo=` of `--foo=(a|b)` counts as a complete word."""
+    names, sets = flag_sets(repo, tier)
+    flags = sets[1]
+    text, tree, funcs, _ = skeleton(repo, flags)
+    subs = funcs.get(SUB, [])
+    if len(subs) != 1:
+        res.undecided(rule, f"{rule}:function", f"{len(subs)} definitions of the within-word matcher")
+        return
+    sub = subs[0]
+    # tables the wrappers define (local -A/-a NAME) vs tables the matcher reads
+    defined = set()
+    for fname, defs in funcs.items():
+        if fname.startswith(SUB + "_"):
+            for d in defs:
+                for n, *_ in B.walk(d):
+                    if n.kind == "simple":
+                        for a in B.assignments(n):
+                            defined.add(re.sub(r"H__\w+__H", "N", a[0]))
+    wl = next((s for s in stmts(sub.body.body) if s.kind == "while"), None)
+    first = stmts(wl.body)[0] if wl is not None and stmts(wl.body) else None
+    ok = False
+    why = "the end-of-word branch sets matched=1 unconditionally"
+    if first is not None and first.kind == "if":
+        inner = stmts(first.clauses[0][1])
+        # matched=1 must sit under a test that mentions $subword_state and a wrapper-defined table
+        for n, loops, conds, f in B.walk(first):
+            if n.kind == "simple" and any(a[0] == "matched" and a[3] == "1" for a in B.assignments(n)):
+                texts = [t.text for c in conds if c[0].kind == "if" and c[1] is not None for t in stmts(c[1]) if t.kind == "cond"]
+                if any("subword_state" in t and any(d in t for d in defined if "accept" in d or "final" in d) for t in texts):
+                    ok = True
+                    why = "matched=1 at the end of the word is conditioned on the reached state being in an accepting-state table"
+    res.check(ok, rule, f"{rule}:matches-requires-accepting-state", why + ("" if ok else f" (tables the wrappers define: {sorted(defined)}; none lists accepting states): a proper prefix of a legal word that ends between two literals is accepted as a complete word"), f"bash skeleton line {sub.line}")
